@@ -136,12 +136,22 @@ def confirm_loop(fn, max_events=3000000, wall=120.0):
         return False
 
 
-def shex(kwargs, timeout=30.0, **call):
-    """Fresh Shaper(**kwargs).shex_graph(string_output=True, **call)."""
+def shex(kwargs, timeout=30.0, history=None, **call):
+    """Fresh Shaper(**kwargs).shex_graph(string_output=True, **call).
+    history: earlier calls [[threshold, output format, 'string'|'file'], ...] made on the same Shaper first - the answer to
+    the judged call must not depend on them (a property about the shapes holds for every call, not only for the first)."""
     call.setdefault("string_output", True)
 
     def go():
-        return Shaper(**kwargs).shex_graph(**call)
+        sh = Shaper(**kwargs)
+        if history:
+            with tmpdir() as d:
+                for i, (thr, fmt, sink) in enumerate(history):
+                    if sink == "file":
+                        sh.shex_graph(output_file=os.path.join(d, "h%d.out" % i), acceptance_threshold=thr, output_format=fmt)
+                    else:
+                        sh.shex_graph(string_output=True, acceptance_threshold=thr, output_format=fmt)
+        return sh.shex_graph(**call)
     return guarded(go, timeout)
 
 
